@@ -160,3 +160,25 @@ Fixpoint arun (b : abuf) (cs : list bcmd) : list (pres * nat) :=
   | [] => []
   | c :: r => let '(b', res) := arun1 b c in (res, length (a_items b')) :: arun b' r
   end.
+
+(* decidable comparison of recorded results, for evaluating recorded cases inside Coq (vm_compute) *)
+Definition opt_nat_eqb (a b : option nat) : bool :=
+  match a, b with Some x, Some y => Nat.eqb x y | None, None => true | _, _ => false end.
+
+Definition pres_eqb (a b : pres) : bool :=
+  match a, b with
+  | RBufOp x, RBufOp y => opt_nat_eqb x y
+  | RBufOk, RBufOk | RBufFull, RBufFull | RBufShut, RBufShut | RBufWouldBlock, RBufWouldBlock | RBufPanic, RBufPanic => true
+  | _, _ => false
+  end.
+
+Fixpoint results_eqb (l1 l2 : list (pres * nat)) : bool :=
+  match l1, l2 with
+  | [], [] => true
+  | (r1, n1) :: t1, (r2, n2) :: t2 => pres_eqb r1 r2 && Nat.eqb n1 n2 && results_eqb t1 t2
+  | _, _ => false
+  end.
+
+(* a recorded case: capacity, commands, what the real buffer answered *)
+Definition case_ok (c : nat * list bcmd * list (pres * nat)) : bool :=
+  let '(cap, cs, expected) := c in results_eqb (prun (pinit cap) cs) expected.
